@@ -11,7 +11,7 @@
 //   write_nth / fsync_nth / close_nth / fwrite_nth / fflush_nth / fclose_nth n: the n-th such call on
 //                 the output file fails, for every n up to the number of calls of the fault-free run
 //   write_eintr n the n-th write() fails once with EINTR;  write_short m: write() transfers <= m bytes
-//   encoder j     (OPL with locations_on_ways) way j carries an invalid node location: the encoder throws
+//   encoder j     (OPL with locations_on_ways) way j carries a tag value ending in an incomplete UTF-8 sequence: the encoder throws
 //                 in the pool worker
 // Every case runs in a forked child (benum::run_isolated; a crash or hang is attributed to its case).
 //
@@ -270,12 +270,13 @@ void build(osmium::memory::Buffer& buf, const Obj& o, bool with_loc, bool bad_lo
     WayBuilder b{buf};
     b.set_id(o.id).set_version(o.version).set_changeset(o.changeset).set_uid(o.uid).set_timestamp(o.ts).set_visible(true);
     b.set_user(o.user);
-    { TagListBuilder tb{b}; for (auto& t : o.tags) tb.add_tag(t.first, t.second); }
+    // the bad way carries a tag value that ends in an incomplete UTF-8 sequence: the OPL encoder throws std::out_of_range for it
+    // (an invalid way node location, used here first, stopped being an encoder error with the repair f7d4a33 in /repo)
+    { TagListBuilder tb{b}; for (auto& t : o.tags) tb.add_tag(t.first, t.second); if (bad_loc) tb.add_tag("bad", "x\xE2\x82"); }
     {
         WayNodeListBuilder wb{b};
         for (size_t i = 0; i < o.refs.size(); ++i) {
-            // a defined but invalid location (200 degrees east) on the second node of the bad way
-            osmium::Location loc = (bad_loc && i == 1) ? osmium::Location{int32_t(2000000000), int32_t(0)} : osmium::Location{int32_t(1000 * o.refs[i]), int32_t(2000 * o.refs[i])};
+            osmium::Location loc = osmium::Location{int32_t(1000 * o.refs[i]), int32_t(2000 * o.refs[i])};
             wb.add_node_ref(osmium::NodeRef{o.refs[i], loc});
         }
     }
@@ -507,7 +508,7 @@ std::vector<Plan> plans_for(const Cfg& c, const Dry& d, bool thorough) {
     std::vector<Plan> v;
     auto add = [&](const char* kind, long n, int err) { Plan p; p.kind = kind; p.n = n; p.err = err; v.push_back(p); };
     add("none", 0, 0);
-    if (c.hist == 'E') {                        // encoder failure: every way in turn carries the invalid location
+    if (c.hist == 'E') {                        // encoder failure: every way in turn carries the unencodable tag value
         int nways = 0; for (auto& o : g_hist.at('E').objs) if (o.type == 'w') ++nways;
         for (int j = 0; j < nways; ++j) add("encoder", j, 0);
         return v;
@@ -550,7 +551,7 @@ std::vector<Group> groups(bool T) {
     };
     product(std::string("history A (3 buffers), output queue 2, pool 1: ") + (T ? "every byte offset for every offset plan" : "every byte offset through RLIMIT_FSIZE with fsync, other offset plans strided by 7 + buffer boundaries") + ", every call index", 'A', 2, 1, 0);
     {
-        Group gr; gr.name = "encoder failure (OPL, locations_on_ways, invalid way node location), every way position";
+        Group gr; gr.name = "encoder failure (OPL, locations_on_ways, tag value ending in an incomplete UTF-8 sequence), every way position";
         for (auto& cm : comps) for (int fs = 0; fs < 2; ++fs) for (int paced = 0; paced < 2; ++paced) gr.cfgs.push_back(Cfg{"opl", cm, fs, 'E', 2, paced ? 2 : 1, paced});
         g.push_back(gr);
     }
